@@ -84,6 +84,21 @@ def build_items(dmax, cmax, rnd):
     desc5 = RepetitionCodeDescription.from_chain(length=5)
     init5 = InitialStateContainer.from_ordered_list([InitialStateEnum.ONE, InitialStateEnum.ZERO, InitialStateEnum.ONE])
     items.append(('main-d3-c5-unrolled-long', construct_repetition_code_circuit(qec_cycles=5, description=desc5, initial_state=init5).apply_modifiers()))
+    # chain descriptions other than the plain chain: derived from a device layout, and the same with one gate switched off
+    # (a layer that only parks)
+    from qce_circuit.library.repetition_code.circuit_components import CompositeRepetitionCodeDescription
+    from qce_circuit.library.repetition_code.repetition_code_connectivity import Repetition9Code
+    from qce_circuit.connectivity.intrf_channel_identifier import EdgeIDObj
+    names = ['D7', 'Z3', 'D4', 'Z1', 'D5']
+    inv = [QubitIDObj(n_) for n_ in names]
+    lay = Repetition9Code()
+    base = RepetitionCodeDescription.from_connectivity(involved_qubit_ids=inv, connectivity=lay)
+    init3 = InitialStateContainer.from_ordered_list([InitialStateEnum.ONE, InitialStateEnum.ZERO, InitialStateEnum.ONE])
+    items.append(('layout-D7Z3D4Z1D5-c2-unrolled', construct_repetition_code_circuit(qec_cycles=2, description=base, initial_state=init3).apply_modifiers()))
+    for anc, dat in (('Z1', 'D4'), ('Z1', 'D5'), ('Z3', 'D7'), ('Z3', 'D4')):
+        comp = CompositeRepetitionCodeDescription(_base_description=base, _qubit_index_map={q_: i for i, q_ in enumerate(inv)}, _connectivity=lay,
+                                                  _exclude_gate_edge_ids=[EdgeIDObj(QubitIDObj(anc), QubitIDObj(dat))])
+        items.append(('composite-no-%s%s-c1-constructed' % (anc, dat), construct_repetition_code_circuit(qec_cycles=1, description=comp, initial_state=init3)))
     for typ in (CalibrateType.QUBIT, CalibrateType.QUTRIT):
         for n in (1, 3):
             ids = [QubitIDObj('D%d' % (i + 1)) for i in range(n)]
